@@ -369,7 +369,7 @@ Section Model.
 
   (* ---------- the real interface: the calls on the real LP ... *)
   Definition elem_r (e : dy) (x : dy) : dy := if keep_r e x then x else dzero.
-  Definition rprims (e : dy) (m n : nat) (o : rop) : list (prim dy) :=
+  Definition rprims (e : dy) (pm : bool) (m n : nat) (o : rop) : list (prim dy) :=
     match o with
     | RAddRow r => [PAddRow r] | RAddRows rs => map PAddRow rs
     | RAddCol c => [PAddCol c] | RAddCols cs => map PAddCol cs
@@ -384,7 +384,8 @@ Section Model.
     | RRemRows perm => [PRemRows (mask_of_perm perm)] | RRemCols perm => [PRemCols (mask_of_perm perm)]
     | RRemRowsIdx idx => [PRemRows (idx_to_mask m idx)] | RRemColsIdx idx => [PRemCols (idx_to_mask n idx)]
     | RRemRowRange a b => [PRemRows (range_to_mask m a b)] | RRemColRange a b => [PRemCols (range_to_mask n a b)]
-    | RClear => [PClear]
+    (* clearLPReal / clearLPRational: SPxLPBase::clear() resets the sense to MAXIMIZE, the OBJSENSE parameter is re-applied *)
+    | RClear => [PClear; PSense pm]
     end.
   (* ... and, in SYNCMODE_AUTO, the update of the type arrays that follows the same calls on the rational LP
      (with every double converted exactly) *)
@@ -415,7 +416,7 @@ Section Model.
   Definition elem_q (e : dy) (g : bool) (x : Q) : Q :=
     if g then (if dnz (rnd RGetD x) then x else qzero)           (* mpq_get_d of the value is not 0 *)
     else (if keep_q e x then x else qzero).                      (* isNotZero(val, epsilon) *)
-  Definition qprims (e : dy) (m n : nat) (q : qlp) (o : qop) : list (prim Q) :=
+  Definition qprims (e : dy) (pm : bool) (m n : nat) (q : qlp) (o : qop) : list (prim Q) :=
     match o with
     | QAddRow _ r => [PAddRow r] | QAddRows _ rs => map PAddRow rs
     | QAddCol _ c => [PAddCol c] | QAddCols _ cs => map PAddCol cs
@@ -431,7 +432,7 @@ Section Model.
     | QRemRows perm => [PRemRows (mask_of_perm perm)] | QRemCols perm => [PRemCols (mask_of_perm perm)]
     | QRemRowsIdx idx => [PRemRows (idx_to_mask m idx)] | QRemColsIdx idx => [PRemCols (idx_to_mask n idx)]
     | QRemRowRange a b => [PRemRows (range_to_mask m a b)] | QRemColRange a b => [PRemCols (range_to_mask n a b)]
-    | QClear => [PClear]
+    | QClear => [PClear; PSense pm]
     end.
   Definition qtyupd (inf : Q) (m n : nat) (o : qop) : tyupd :=
     match o with
@@ -491,7 +492,7 @@ Section Model.
     | QRemRows perm => [PRemRows (mask_of_perm perm)] | QRemCols perm => [PRemCols (mask_of_perm perm)]
     | QRemRowsIdx idx => [PRemRows (idx_to_mask m idx)] | QRemColsIdx idx => [PRemCols (idx_to_mask n idx)]
     | QRemRowRange a b => [PRemRows (range_to_mask m a b)] | QRemColRange a b => [PRemCols (range_to_mask n a b)]
-    | QClear => [PClear]
+    | QClear => [PClear; PSense pm]
     end.
 
   (* ---------- _syncLPRational / _recomputeRangeTypesRational / _syncLPReal *)
@@ -517,7 +518,7 @@ Section Model.
     match o with
     | OR ro =>
       let m := nrows (rl s) in let n := ncols (rl s) in
-      let ps := rprims (eps s) m n ro in
+      let ps := rprims (eps s) (pmax s) m n ro in
       let r' := rapplys ps (rl s) in
       match mode s, ql s with
       | Auto, Some q =>
@@ -532,13 +533,13 @@ Section Model.
       | OnlyReal, Some q =>
         (* every call returns at once, except clearLPRational, which has no such test *)
         match qo with
-        | QClear => with_lps s (rl s) (Some (empty_lp qzero)) ([], [])
+        | QClear => with_lps s (rl s) (Some (qapply (PSense (pmax s)) (empty_lp qzero))) ([], [])
         | _ => s
         end
       | OnlyReal, None => s
       | md, Some q =>
         let m := nrows q in let n := ncols q in
-        let q' := applys (qap_of qo) (qprims (eps s) m n q qo) q in
+        let q' := applys (qap_of qo) (qprims (eps s) (pmax s) m n q qo) q in
         let t' := ty_apply inf q' (qtyupd inf m n qo) (rty s, cty s) in
         match md with
         | Auto => with_lps s (applys (rap_of qo) (qrprims (eps s) m n q' (pmax s) qo) (rl s)) (Some q') t'
@@ -608,7 +609,7 @@ Section Model.
     match o with
     | OR ro =>
       let m := nrows (rl s) in let n := ncols (rl s) in
-      let ps := rprims (eps s) m n ro in
+      let ps := rprims (eps s) (pmax s) m n ro in
       forallb prim_dy_ok ps && rprims_ok ps (rl s) &&
       match ro with
       | RRemRowsIdx idx => forallb (fun i => i <? m) idx          (* _idxToPerm writes perm[idx[k]] *)
@@ -627,7 +628,7 @@ Section Model.
       | _, None => false
       | md, Some q =>
         let m := nrows q in let n := ncols q in
-        let ps := qprims (eps s) m n q qo in
+        let ps := qprims (eps s) (pmax s) m n q qo in
         prims_ok (qap_of qo) ps q &&
         match qo with
         (* addRow(s)Rational / addCol(s)Rational(const mpq_t pointers): an explicit zero among the values is stored in the
